@@ -27,7 +27,8 @@ atomic step; goroutines are interleavings of such steps):
     readStep         one iteration of readLoop: ReadAt under the segment's read lock = one whole
                      record, or EOF → hop to the next segment of the SNAPSHOT, or limit reached
     checkHW          `hw := r.cl.HighWatermark()` and the comparison `hw == r.hw`
-    registerWait     commitLog.waitForHW under the log lock: `l.hw != hw` → return at once;
+    registerWait     commitLog.waitForHW under the log lock: `l.hw != hw` → return at once (only if
+                     the code has that comparison: `Gen.HWReader.waitRechecks`);
                      read-only at the end → read-only error; else register and park
     resync           `r.hw = hw; segments = Segments(); getHWPos(...)` (and, for a reader that
                      parked at creation, its positioning at `offset`)
@@ -251,6 +252,19 @@ def resync (l : CLog) (r : Reader) (hw : Int) : Reader :=
           | none => fail r "entry-not-found"
           | some k => { r' with phase := .reading, seg := some j, slot := k }
 
+/-- `commitLog.waitForHW(r, hw)` for a reader that sampled `hw = r.hwSeen` (one critical section
+under the log lock). `recheck` = the code compares the reader's sample with the CURRENT `l.hw`
+before registering it (`if l.hw != hw { wait <- false }`); the model is run with the regenerated
+`Gen.HWReader.waitRechecks`, the variant `recheck := false` exists to state what the comparison is
+for (`Props.C03.lost_wakeup_without_recheck`). -/
+def registerWait (recheck : Bool) (s : State) (id : Nat) (r : Reader) : State :=
+  if recheck && Gen.HWReader.waitRecheckCmp.evalInt s.log.hw r.hwSeen then
+    setReader s id { r with phase := .atLimit }                       -- `wait <- false`
+  else if Gen.HWReader.waitReadonlyCmp.evalInt s.log.hw s.log.newest && s.log.readonly then
+    setReader s id (fail r "readonly")                                -- `wait <- true`
+  else
+    { setReader s id { r with phase := .waiting } with waiters := id :: s.waiters }
+
 /-- The transition function. An operation that is not enabled leaves the state unchanged. -/
 def step (s : State) : Op → State
   | .append rs =>
@@ -289,15 +303,7 @@ def step (s : State) : Op → State
     | none => s
   | .registerWait id =>
     match s.readers id with
-    | some r =>
-      if r.phase = .mustWait then
-        if Gen.HWReader.waitRecheckCmp.evalInt s.log.hw r.hwSeen then
-          setReader s id { r with phase := .atLimit }                       -- `wait <- false`
-        else if Gen.HWReader.waitReadonlyCmp.evalInt s.log.hw s.log.newest && s.log.readonly then
-          setReader s id (fail r "readonly")                                -- `wait <- true`
-        else
-          { setReader s id { r with phase := .waiting } with waiters := id :: s.waiters }
-      else s
+    | some r => if r.phase = .mustWait then registerWait Gen.HWReader.waitRechecks s id r else s
     | none => s
   | .resync id =>
     match s.readers id with
@@ -315,6 +321,17 @@ def step (s : State) : Op → State
     | none => s
 
 def run (s : State) (ops : List Op) : State := ops.foldl step s
+
+/-- The same transition function with the re-check of `waitForHW` switched on or off explicitly
+(`stepWith Gen.HWReader.waitRechecks = step`). -/
+def stepWith (recheck : Bool) (s : State) : Op → State
+  | .registerWait id =>
+    match s.readers id with
+    | some r => if r.phase = .mustWait then registerWait recheck s id r else s
+    | none => s
+  | op => step s op
+
+def runWith (recheck : Bool) (s : State) (ops : List Op) : State := ops.foldl (stepWith recheck) s
 
 /-- The reader the operation belongs to (`none` for environment operations). -/
 def Op.reader : Op → Option Nat
